@@ -156,3 +156,4 @@ pub fn catch<T>(f: impl FnOnce() -> T + std::panic::UnwindSafe) -> Result<T, Str
 pub fn quiet_panics() {
     std::panic::set_hook(Box::new(|_| {}));
 }
+pub mod mocknode;
